@@ -117,7 +117,12 @@ func main() {
 		os.Unsetenv(k)
 	}
 	if cfg.StartedFile != "" {
-		os.WriteFile(cfg.StartedFile, []byte(strconv.Itoa(os.Getpid())), 0o644)
+		// (written under another name and renamed: a process killed at this very moment must not leave a
+		// file that exists but is empty)
+		tmp := cfg.StartedFile + ".tmp"
+		if os.WriteFile(tmp, []byte(strconv.Itoa(os.Getpid())), 0o644) == nil {
+			os.Rename(tmp, cfg.StartedFile)
+		}
 	}
 	if cfg.EnvDumpTo != "" {
 		envDump(cfg.EnvDumpTo)
